@@ -18,6 +18,7 @@ package main
 
 import (
 	"context"
+	"flag"
 	"encoding/json"
 	"fmt"
 	"os"
@@ -76,6 +77,15 @@ func witnesses() []*Case {
 
 func main() {
 	tStart := time.Now()
+	child := flag.String("child", "", "internal: run a scenario in this process (d69)")
+	for _, a := range os.Args[1:] {
+		if a == "-child" || a == "--child" {
+			// the child does not need the other flags
+			raceChild()
+			return
+		}
+	}
+	_ = child
 	env, rep := vh.Parse("C16")
 	rng := vh.NewRng(env.Seed)
 	rep.Rule = "a case is one history of sender operations (add/step/stop/append/sendDirect/applyConfig) with its settings and client behaviour; " +
@@ -108,6 +118,10 @@ func main() {
 	// ---------------------------------------------------------------- A: GetInstance
 	if env.Replay == "" || hasKind(cases, "getinstance") {
 		checkGetInstance(env, rep)
+	}
+	// ---------------------------------------------------------------- A': settings vs the Go memory model (D69)
+	if env.Replay == "" || hasKind(cases, "race") {
+		checkSettingsRace(env, rep)
 	}
 
 	// ---------------------------------------------------------------- case lists
@@ -239,6 +253,9 @@ func main() {
 		if want != gotPacks && !isProp {
 			rep.Fail("correspondence", "model:packs-differ",
 				fmt.Sprintf("the property holds on this history, but the packs differ from the model's: implementation %s; model %s", vh.Clip(gotPacks, 400), vh.Clip(want, 400)), replay)
+		}
+		if j.free != nil && !strings.HasSuffix(parts[1], "pc=exited cancelled=1") && !isProp {
+			rep.Fail("correspondence", "model:loop-not-exited", "the loop machine did not exit on the reconstructed schedule: "+vh.Clip(parts[1], 300), replay)
 		}
 		if j.det != nil && parts[1] != implState && !isProp {
 			rep.Fail("correspondence", "model:state-differs",
